@@ -137,6 +137,17 @@ def gen_cases(seed, chunk, n, tier):
                 orc = oracle.embed_compare(c, exp, full)
                 if orc is None and c.charge != gen.py_combine(sym, [a.charge, b.charge]):
                     orc = f"result charge {c.charge} is not the combination of {a.charge} and {b.charge}"
+                if orc is None and mode in (None, "auto", "fused") and xa:
+                    # call history: the same contraction of the conjugated operands afterwards (their index
+                    # objects derive from ones the fused path has already seen) against the dense contraction
+                    cc = sr.tensordot(a.conj(), b.conj(), (tuple(xa), tuple(xb)), preserve_array=True,
+                                      **({"mode": mode} if mode else {}))
+                    orc = oracle.embed_compare(cc, np.conj(exp), [ix.conj() for ix in full])
+                    if orc is not None:
+                        orc = "contraction of the conjugated operands after the original ones: " + orc
+                    elif oracle.py_valid(cc):
+                        orc = "contraction of the conjugated operands after the original ones is invalid: " + \
+                              str(oracle.py_valid(cc))
                 if orc is None and mode != "fused" and len(xa) == a.ndim == b.ndim:
                     # scalar form of the same call
                     s = sr.tensordot(a, b, (tuple(xa), tuple(xb)), **({"mode": mode} if mode else {}))
